@@ -244,9 +244,8 @@ func (g *qGen) genOrder(w *qWorld, t *qTable) qQuery {
 	}
 	from, fromCoq := t.name+" AS "+a, fmt.Sprintf("(SrcTable %d %s)", len(t.cols), t.coq)
 	if g.r.Intn(4) == 0 {
-		// the sorted table is itself the result of an inner ORDER BY / OFFSET / LIMIT: what the inner clauses
-		// leave behind (retained sort values, the offset) must not leak into the outer ones.  The inner
-		// order is over all columns, so that rows which tie are identical and the kept multiset is determined.
+		// the sorted table is itself the result of an inner OFFSET / LIMIT: what the inner clauses leave behind
+		// (the offset) must not leak into the outer ones
 		var io, ico, icols, iitems []string
 		for i, c := range t.cols {
 			io = append(io, "i."+c)
@@ -264,8 +263,11 @@ func (g *qGen) genOrder(w *qWorld, t *qTable) qQuery {
 			m := []int{1, 2, n / 2, n}[g.r.Intn(4)]
 			ilim, iclim = fmt.Sprintf(" LIMIT %d", m), fmt.Sprintf("(Some (LimRows (%d), false))", m)
 		}
-		from = fmt.Sprintf("(SELECT %s FROM %s AS i ORDER BY %s%s OFFSET %d) AS %s", strings.Join(icols, ", "), t.name, strings.Join(io, ", "), ilim, k, a)
-		fromCoq = fmt.Sprintf("(SrcSub (Q (BSelect (SrcTable %d %s) None None None %s false) %s (Some (%d)) %s))", len(t.cols), t.coq, coqList(iitems), coqList(ico), k, iclim)
+		// no inner ORDER BY: rows that tie under a sort key need not be identical (" a" / "A"), and which of them an
+		// OFFSET drops after an unstable sort is not determined; without it OFFSET / LIMIT cut the table order
+		_, _ = io, ico
+		from = fmt.Sprintf("(SELECT %s FROM %s AS i%s OFFSET %d) AS %s", strings.Join(icols, ", "), t.name, ilim, k, a)
+		fromCoq = fmt.Sprintf("(SrcSub (Q (BSelect (SrcTable %d %s) None None None %s false) [] (Some (%d)) %s))", len(t.cols), t.coq, coqList(iitems), k, iclim)
 		q.shape = "derived-offset"
 	}
 	sql := "SELECT " + strings.Join(items, ", ") + " FROM " + from + " ORDER BY " + strings.Join(ord, ", ")
@@ -298,7 +300,7 @@ func (g *qGen) genOrder(w *qWorld, t *qTable) qQuery {
 		}
 	}
 	if g.r.Intn(2) == 0 {
-		cands := []int{-1, 0, 1, 2, n - 1, n, n + 1, n / 2}
+		cands := []int{-1, 0, 1, 2, n - 1, n, n + 1, n / 2, 5000} // not larger: the model skips with a unary natural number (the far end is a scenario of C19)
 		k := cands[g.r.Intn(len(cands))]
 		off = fmt.Sprintf(" OFFSET %d", k)
 		coff = fmt.Sprintf("(Some (%d))", k)
